@@ -19,6 +19,7 @@ import (
 	"github.com/insomniacslk/dhcp/dhcpv4"
 	"github.com/insomniacslk/dhcp/dhcpv6"
 
+	"verifmc/checks/optplug"
 	"verifmc/ev"
 	"verifmc/pkt"
 	"verifmc/reg"
@@ -26,7 +27,8 @@ import (
 )
 
 func init() {
-	reg.Register(&reg.Check{ID: "C13", Level: "exploration", Run: run, Replay: replay})
+	reg.Register(&reg.Check{ID: "C13", Level: "exploration", Run: run, Replay: replay, Worker: func(a []string) int { return optplug.Worker("C13", a) }})
+	builtinMonitor = optplug.MonitorBuiltins
 }
 
 // Item is one configured plugin: Kind in {s4,s6,sd,unknown,fail4,fail6}, Beh in
